@@ -125,6 +125,24 @@ func (r *Report) Finish(verifDir string, kf *KnownFindings, cmdline string) int 
 			os.Remove(f)
 		}
 	}
+	// anchors that could not be resolved (instance floors missed) are a failure of the property's check on this tree:
+	// a rule that matches nothing must not pass. They are reported as violations unless a specific violation already explains them.
+	if len(r.Violations) == 0 {
+		for _, f := range r.Fatal {
+			if strings.HasPrefix(f, "floor:") {
+				r.Violate("F0-anchors-resolved", strings.TrimPrefix(f, "floor: "), "-", "the constructs this property's rules are anchored in were not found: "+f, nil)
+			}
+		}
+		if len(r.Violations) > 0 {
+			var rest []string
+			for _, f := range r.Fatal {
+				if !strings.HasPrefix(f, "floor:") {
+					rest = append(rest, f)
+				}
+			}
+			r.Fatal = rest
+		}
+	}
 	sort.SliceStable(r.Violations, func(i, j int) bool { return r.Violations[i].Key < r.Violations[j].Key })
 	unlisted := 0
 	var lines []string
